@@ -717,7 +717,7 @@ fn dump<'tcx>(tcx: TyCtxt<'tcx>, krate: &str) -> String {
         }
         for ldid in tcx.hir_body_owners() {
             let did = ldid.to_def_id();
-            if !matches!(tcx.def_kind(did), DefKind::Fn | DefKind::AssocFn) {
+            if !matches!(tcx.def_kind(did), DefKind::Fn | DefKind::AssocFn | DefKind::Closure) {
                 continue;
             }
             let body = tcx.hir_body_owned_by(ldid);
